@@ -1,49 +1,81 @@
-(* C14 — the test machine: every supported step refines the flat-byte-string operation, keeps the
-   machine well formed and never leaves a buffer (step <> None); sequences by induction. *)
+(* C14 — the test machine: every step refines the flat-byte-string operation, keeps the machine
+   well formed and never leaves a buffer (step <> None); sequences by induction. *)
 From Coq Require Import ZArith List Bool Lia.
-From PV Require Import C14.C14_Model C14.C14_Lib C14.C14_Proofs.
+From PV Require Import C14.C14_Model C14.C14_Lib C14.C14_Proofs C14.C14_Copy C14.C14_Alloc.
 Import ListNotations.
 Local Open Scope Z_scope.
 
-Definition wf_machine (m : machine) : Prop := wf_view (m_st m) (live (m_iv m)).
+(* machine invariant: every element lies inside its buffer, and no two elements share a buffer
+   (each element is a piece of its own allocation — what the harness builds and what push/extract
+   preserve; zero-length elements included, no side condition on lengths) *)
+Definition wf_machine (m : machine) : Prop := wf_view (m_st m) (live (m_iv m)) /\ ids_ok (live (m_iv m)).
 Definition mflat (m : machine) : list byte := flatT (m_st m) (live (m_iv m)).
 Definition auxflat (m : machine) : list byte := flatT (m_st m) (m_aux m).
+Definition dstflat (m : machine) (ob : obs) : list byte := flatT (m_st m) (o_dst ob).
 
-(* size_t arguments are non-negative *)
+Definition shape_ok (sh : list Z) : Prop := Forall (fun n => 0 <= n) sh.
+Fixpoint shape_sum (sh : list Z) : Z := match sh with [] => 0 | n :: r => n + shape_sum r end.
+(* size_t arguments are non-negative; slice's off_t offset is required to be >= 0 *)
 Definition args_ok (o : op) : Prop :=
   match o with
-  | OShrink n | OXF n | OXB n | OXFB n | OXBB n | OPushB n | OPushF n => 0 <= n
+  | OShrink n | OShrinkLT n | OXF n | OXB n | OXFB n | OXBB n | OXFC n | OXBC n
+  | OPushB n | OPushF n | OMTo n | OMFrom n | OPTo n | OTrunc n | OPushBA n | OPushFA n => 0 <= n
   | OXFV n N | OXBV n N => 0 <= n /\ 0 <= N
+  | OSlice c o N => 0 <= c /\ 0 <= o /\ 0 <= N
+  | OMToV sh n | OMFromV sh n | OPToV sh n | OPFromV sh n => shape_ok sh /\ 0 <= n
   | _ => True
   end.
-(* operations covered by the sequence theorem proved so far *)
-Definition supported (o : op) : Prop :=
-  match o with
-  | OSum | OShrink _ | OXF _ | OXB _ | OXFV _ _ | OXBV _ _ | OPopF | OPopB | OClear | OPushB _ | OPushF _ => True
-  | _ => False
-  end.
-
-(* the operation on the flat byte string F of the vector: F' = flat string afterwards,
-   G' = flat string of the out view afterwards, ob = what the call returned *)
-Definition flat_spec (o : op) (own : bool) (F F' G' : list byte) (ob : obs) : Prop :=
+(* the operation on the flat byte string F of the vector: F' = flat string afterwards, G' = flat string
+   of the out view afterwards, D = content of the destination buffers / of the returned pointer,
+   ob = what the call returned *)
+Definition flat_spec (o : op) (own : bool) (F F' G' D : list byte) (ob : obs) : Prop :=
   let r := o_ret ob in
   match o with
   | OSum => r = zlen F /\ F' = F
   | OShrink n => r = Z.min n (zlen F) /\ F' = firstn (Z.to_nat r) F
+  | OShrinkLT n =>
+      if own then r = NA /\ F' = F
+      else exists post, F = F' ++ post /\ (n = 0 -> F' = []) /\ (0 < n -> n <= zlen F -> zlen F' = n + r /\ 0 <= r) /\
+                        (zlen F < n -> F' = F /\ r = 0)
   | OXF n => r = Z.min n (zlen F) /\ F' = skipn (Z.to_nat r) F
   | OXB n => r = Z.min n (zlen F) /\ F' = firstn (Z.to_nat (zlen F - r)) F
+  | OXFB n => r = Z.min n (zlen F) /\ F' = skipn (Z.to_nat r) F /\
+              exists pat, zlen pat = n /\ D = firstn (Z.to_nat r) F ++ skipn (Z.to_nat r) pat
+  | OXBB n => r = Z.min n (zlen F) /\ F' = firstn (Z.to_nat (zlen F - r)) F /\
+              exists pat, zlen pat = n /\ D = firstn (Z.to_nat (n - r)) pat ++ skipn (Z.to_nat (zlen F - r)) F
   | OXFV n N => (r = -1 /\ G' ++ F' = F) \/
                 (r = Z.min n (zlen F) /\ G' = firstn (Z.to_nat r) F /\ F' = skipn (Z.to_nat r) F)
   | OXBV n N => (r = -1 /\ F' ++ G' = F) \/
                 (r = Z.min n (zlen F) /\ G' = skipn (Z.to_nat (zlen F - r)) F /\ F' = firstn (Z.to_nat (zlen F - r)) F)
+  | OXFC n => (r = 0 /\ o_ptr ob = None /\ F' = F) \/
+              (r = 1 /\ o_ptr ob <> None /\ n <= zlen F /\ D = firstn (Z.to_nat n) F /\ F' = skipn (Z.to_nat n) F)
+  | OXBC n => (r = 0 /\ o_ptr ob = None /\ F' = F) \/
+              (r = 1 /\ o_ptr ob <> None /\ n <= zlen F /\ D = skipn (Z.to_nat (zlen F - n)) F /\ F' = firstn (Z.to_nat (zlen F - n)) F)
+  | OSlice c o N =>
+      F' = F /\ (r = -1 \/ r = 0 \/
+                 (r = zlen G' /\ G' = firstn (Z.to_nat r) (firstn (Z.to_nat c) (skipn (Z.to_nat o) F))))
+  | OMTo n | OMToV _ n =>
+      F' = F /\ exists pat, r = Z.min n (Z.min (zlen pat) (zlen F)) /\ D = firstn (Z.to_nat r) F ++ skipn (Z.to_nat r) pat
+  | OPTo n | OPToV _ n =>
+      exists pat, r = Z.min n (Z.min (zlen pat) (zlen F)) /\ D = firstn (Z.to_nat r) F ++ skipn (Z.to_nat r) pat /\
+                  F' = skipn (Z.to_nat r) F
+  | OMFrom n | OMFromV _ n =>
+      r = Z.min n (Z.min (zlen F) (zlen D)) /\ F' = firstn (Z.to_nat r) D ++ skipn (Z.to_nat r) F
+  | OPFromV _ n =>
+      r = Z.min n (Z.min (zlen F) (zlen D)) /\ F' = firstn (Z.to_nat r) D ++ skipn (Z.to_nat r) F /\ G' = skipn (Z.to_nat r) D
   | OPopF => if own then 0 <= r <= zlen F /\ F' = skipn (Z.to_nat r) F else r = NA /\ F' = F
   | OPopB => if own then 0 <= r <= zlen F /\ F' = firstn (Z.to_nat (zlen F - r)) F else r = NA /\ F' = F
   | OClear => if own then F' = [] else r = NA /\ F' = F
   | OPushB s => if own then (r = 0 /\ F' = F) \/ (r = s /\ exists X, zlen X = s /\ F' = F ++ X) else r = NA /\ F' = F
   | OPushF s => if own then (r = 0 /\ F' = F) \/ (r = s /\ exists X, zlen X = s /\ F' = X ++ F) else r = NA /\ F' = F
-  | _ => True
+  | OTrunc n =>
+      if own then r = zlen F' /\ r <= n /\ (n <= zlen F -> F' = firstn (Z.to_nat n) F) /\ (zlen F <= n -> exists X, F' = F ++ X)
+      else r = NA /\ F' = F
+  | OPushBA n => if own then 0 <= r <= n /\ exists X, zlen X = r /\ F' = F ++ X else r = NA /\ F' = F
+  | OPushFA n => if own then 0 <= r <= n /\ exists X, zlen X = r /\ F' = X ++ F else r = NA /\ F' = F
   end.
 
+(* ---------------------------------------------------------------- helpers *)
 Lemma live_wfront m v' : live (wfront m v') = v'.
 Proof. unfold wfront; destruct (m_own m); reflexivity. Qed.
 Lemma live_wback m v' : live (wback m v') = v'.
@@ -66,34 +98,145 @@ Proof.
   unfold bytesT, null_iov; simpl. reflexivity.
 Qed.
 
-Theorem step_refines m o : wf_machine m -> supported o -> args_ok o ->
-  exists m1 ob, step m o = Some (m1, ob) /\ wf_machine m1 /\
-                flat_spec o (m_own m) (mflat m) (mflat m1) (auxflat m1) ob.
+Lemma do_xf_ids {A} (cb : A -> Z -> Z -> Z -> cbres A) v bytes a :
+  match do_extract_front cb v bytes a with
+  | XOob => True | XNeg v' _ => ids_ok v -> ids_ok v' | XDone v' _ _ => ids_ok v -> ids_ok v' end.
 Proof.
-  destruct m as [st own iv aux chunk]. unfold wf_machine, mflat, auxflat; simpl. intros W S A.
+  unfold do_extract_front. destruct (bytes =? 0); [auto|]. pose proof (xf_loop_ids cb v bytes a) as H.
+  destruct (xf_loop cb v bytes a); auto; destruct H as [pre P]; intros; eapply ids_ok_suffix; eauto.
+Qed.
+Lemma do_xb_ids {A} (cb : A -> Z -> Z -> Z -> cbres A) v bytes a :
+  match do_extract_back cb v bytes a with
+  | XOob => True | XNeg v' _ => ids_ok v -> ids_ok v' | XDone v' _ _ => ids_ok v -> ids_ok v' end.
+Proof.
+  unfold do_extract_back. destruct (bytes =? 0); [auto|]. pose proof (xb_loop_ids cb (rev v) bytes a) as H.
+  destruct (xb_loop cb (rev v) bytes a); simpl; auto; destruct H as [pre P]; intros I; apply ids_ok_rev;
+    (apply (ids_ok_suffix (rev v) _ pre); [apply ids_ok_rev; exact I | exact P]).
+Qed.
+
+Lemma ids_ok_pairwise st v : wf_view st v -> ids_ok v -> ForallOrdPairs disj v.
+Proof.
+  unfold ids_ok. induction v as [|e v IH]; intros W I; [constructor|]. simpl in I. inversion I as [|? ? Hn Hd]; subst.
+  apply wf_view_cons in W. destruct W as [_ Wv]. constructor; [|apply IH; auto].
+  apply Forall_forall. intros x Hx. right; right; left. intros E. apply Hn. rewrite E. apply in_map; exact Hx.
+Qed.
+
+Definition ids_below (z : Z) (v : view) : Prop := Forall (fun e => iv_id e < z) v.
+Definition ids_from (z : Z) (v : view) : Prop := Forall (fun e => z <= iv_id e) v.
+Lemma wf_ids_below st v : wf_view st v -> ids_below (zlen st) v.
+Proof. intros W; eapply Forall_impl; [|exact W]. intros e We. pose proof (wf_elem_id_lt _ _ We); lia. Qed.
+Lemma all_disj_lo_hi z a b : ids_below z a -> ids_from z b -> all_disj a b.
+Proof.
+  intros A B. eapply Forall_impl; [|exact A]. intros x Hx. eapply Forall_impl; [|exact B]. intros y Hy.
+  simpl in *. right; right; left. lia.
+Qed.
+Lemma all_disj_hi_lo z a b : ids_below z a -> ids_from z b -> all_disj b a.
+Proof.
+  intros A B. eapply Forall_impl; [|exact B]. intros y Hy. eapply Forall_impl; [|exact A]. intros x Hx.
+  simpl in *. right; right; left. lia.
+Qed.
+
+Lemma new_bufs_spec : forall shape st st1 dv, shape_ok shape -> new_bufs st shape = (st1, dv) ->
+  exists x, st1 = st ++ x /\ wf_view st1 dv /\ ids_from (zlen st) dv /\ ids_ok dv.
+Proof.
+  induction shape as [|n sh IH]; intros st st1 dv S E; simpl in E.
+  - inversion E; subst. exists []. rewrite app_nil_r. repeat split; constructor.
+  - inversion S as [|? ? Hn Hs]; subst. unfold new_buf in E.
+    destruct (new_bufs (st ++ [pattern (zlen st) n]) sh) as [st2 v] eqn:R. inversion E; subst.
+    destruct (IH _ _ _ Hs R) as (x & -> & W & I & O).
+    exists ([pattern (zlen st) n] ++ x). rewrite app_assoc. split; [reflexivity|].
+    rewrite zlen_app in I. assert (zlen [pattern (zlen st) n] = 1) by reflexivity.
+    split; [constructor; auto; apply wf_elem_app; apply wf_new_elem; exact Hn|].
+    split; [constructor; [simpl; lia | eapply Forall_impl; [|exact I]; simpl; intros; lia]|].
+    unfold ids_ok in *. simpl. constructor; [|exact O]. intros HI. apply in_map_iff in HI. destruct HI as (y & Ey & Hy).
+    eapply Forall_forall in I; [|exact Hy]. simpl in I. lia.
+Qed.
+
+Lemma sub_whole b : sub b 0 (zlen b) = b.
+Proof. unfold sub, zlen. simpl. rewrite Nat2Z.id. apply firstn_all. Qed.
+
+(* ---------------------------------------------------------------- one step *)
+Theorem step_refines m o : wf_machine m -> args_ok o ->
+  exists m1 ob, step m o = Some (m1, ob) /\ wf_machine m1 /\
+                flat_spec o (m_own m) (mflat m) (mflat m1) (auxflat m1) (dstflat m1 ob) ob.
+Proof.
+  destruct m as [st own iv aux chunk]. unfold wf_machine, mflat, auxflat, dstflat; simpl. intros [W IDS] A.
   pose proof (v_sum_refines st (live iv) W) as SUM. pose proof (zlen_nonneg (flatT st (live iv))) as FN.
-  destruct o; try contradiction; simpl in A; unfold step; cbn [m_st m_own m_iv m_aux m_chunk].
+  pose proof (wf_ids_below st _ W) as BEL.
+  destruct o; simpl in A; unfold step; cbn [m_st m_own m_iv m_aux m_chunk].
   - (* sum *) eexists _, _; split; [reflexivity|]. simpl. auto.
   - (* shrink *)
+    assert (IDP : forall v' r, v_shrink_to (live iv) n = (v', r) -> ids_ok v').
+    { unfold v_shrink_to. intros v' r E. destruct (n =? 0); [inversion E; constructor|].
+      destruct (shrink_loop (live iv) n) as [[v1 h] s1] eqn:R. destruct (shrink_loop_ids _ _ _ _ _ R) as [post P].
+      destruct h; inversion E; subst; eapply ids_ok_prefix; eauto. }
     destruct own.
     + unfold o_shrink_to. destruct (v_shrink_to (live iv) n) as [v' r] eqn:E.
       destruct (v_shrink_to_refines st _ _ _ _ W A E) as (R & F & W' & D).
       destruct (r =? n) eqn:C.
-      * eexists _, _; split; [reflexivity|]. simpl. rewrite <- SUM. auto.
+      * eexists _, _; split; [reflexivity|]. simpl. rewrite <- SUM. pose proof (IDP _ _ eq_refl). auto.
       * apply Z.eqb_neq in C. destruct D as [D|D]; [contradiction|]. subst v'.
         assert (X : live iv ++ skipn (length (live iv)) (live iv) = live iv) by (rewrite skipn_all, app_nil_r; reflexivity).
         eexists _, _; split; [reflexivity|]. simpl. rewrite X, <- SUM. auto.
     + destruct (v_shrink_to (live iv) n) as [v' r] eqn:E.
       destruct (v_shrink_to_refines st _ _ _ _ W A E) as (R & F & W' & D).
-      eexists _, _; split; [reflexivity|]. simpl. rewrite ?live_wback, <- SUM. auto.
+      eexists _, _; split; [reflexivity|]. simpl. rewrite <- SUM. pose proof (IDP _ _ eq_refl). auto.
+  - (* shrinklt *)
+    destruct own; [eexists _, _; split; [reflexivity|]; simpl; auto|].
+    destruct (v_shrink_less_than (live iv) n) as [v' r] eqn:E.
+    destruct (v_shrink_less_than_refines st _ _ _ _ W A E) as (W' & [post P] & H0 & H1 & H2).
+    eexists _, _; split; [reflexivity|]. simpl.
+    split; [split; [exact W'|]; eapply ids_ok_prefix; [exact IDS|rewrite P, map_app; reflexivity]|].
+    exists (flatT st post). split; [rewrite P, flatT_app; reflexivity|].
+    split; [intros Z0; destruct (H0 Z0) as [-> _]; reflexivity|].
+    split.
+    + intros Hp Hle. rewrite <- SUM in Hle. destruct (H1 Hp Hle) as (S1 & R1 & _).
+      rewrite <- (v_sum_refines st v' W'). auto.
+    + intros Hlt. rewrite <- SUM in Hlt. destruct (H2 Hlt) as [-> ->]. auto.
+  - (* trunc *)
+    destruct own; [|eexists _, _; split; [reflexivity|]; simpl; auto].
+    unfold o_truncate. destruct (n =? v_sum (live iv)) eqn:C0.
+    { apply Z.eqb_eq in C0. eexists _, _; split; [reflexivity|]. simpl. split; [auto|].
+      split; [lia|]. split; [lia|]. split; [intros _; rewrite firstn_whole by lia; reflexivity | intros _; exists []; rewrite app_nil_r; reflexivity]. }
+    apply Z.eqb_neq in C0. unfold o_shrink_to. destruct (v_shrink_to (live iv) n) as [v' r0] eqn:E.
+    destruct (v_shrink_to_refines st _ _ _ _ W A E) as (R & F & W' & D).
+    assert (I' : ids_ok v').
+    { revert E. unfold v_shrink_to. destruct (n =? 0); [intros E; inversion E; constructor|].
+      destruct (shrink_loop (live iv) n) as [[v1 h] s1] eqn:RR. destruct (shrink_loop_ids _ _ _ _ _ RR) as [post P].
+      destruct h; intros E; inversion E; subst; eapply ids_ok_prefix; eauto. }
+    destruct (r0 =? n) eqn:C.
+    + apply Z.eqb_eq in C. rewrite C. rewrite Z.eqb_refl. eexists _, _; split; [reflexivity|]. simpl. split; [auto|].
+      rewrite F, C. assert (n <= zlen (flatT st (live iv))) by lia.
+      split; [rewrite zlen_firstn; lia|]. split; [lia|]. split; [auto|]. intros Hle. exists []. rewrite app_nil_r. apply firstn_whole. lia.
+    + apply Z.eqb_neq in C. destruct D as [D|D]; [contradiction|]. subst v'.
+      assert (X : live iv ++ skipn (length (live iv)) (live iv) = live iv) by (rewrite skipn_all, app_nil_r; reflexivity).
+      rewrite X. destruct (r0 =? n) eqn:C2; [apply Z.eqb_eq in C2; contradiction|].
+      set (iv1 := upd_back iv (live iv)).
+      destruct (o_push_back_alloc_spec chunk st iv1 (n - r0) W IDS ltac:(lia)) as (st' & iv' & k & EA & Hk & (W2 & I2 & XX & LX & FX)).
+      rewrite EA. eexists _, _; split; [reflexivity|]. simpl. split; [auto|]. simpl in FX. rewrite FX, zlen_app.
+      split; [lia|]. split; [lia|]. split; [intros; lia|]. intros _. exists XX. reflexivity.
   - (* xf *)
-    destruct (xf_discard_refines st (live iv) n W A) as (v' & rem & E & K & F & W' & L). rewrite E.
+    destruct (xf_discard_refines st (live iv) n W A) as (v' & rem & E & K & F & W' & L).
+    pose proof (do_xf_ids cb_discard (live iv) n tt) as I. rewrite E in *.
     eexists _, _; split; [reflexivity|]. simpl. rewrite ?live_wfront, <- SUM. auto.
+  - (* xfb *)
+    unfold new_buf; cbv beta iota. destruct (xf_copy_refines st (live iv) n W A) as (v' & rem & st2 & pos & E & K & F & W' & Gd & L & Ag).
+    pose proof (do_xf_ids (cb_copy_front (zlen st)) (live iv) n (st ++ [pattern (zlen st) n], 0)) as I. rewrite E in I.
+    match goal with |- context [do_extract_front ?c ?v ?k ?a] =>
+      replace (do_extract_front c v k a) with (XDone v' rem (st2, pos)) by (symmetry; exact E) end.
+    eexists _, _; split; [reflexivity|]. simpl. rewrite ?live_wfront, <- SUM.
+    split; [auto|]. split; [auto|]. split; [exact F|].
+    exists (pattern (zlen st) n). split; [apply pattern_length; exact A|].
+    rewrite flatT_single. unfold bytesT; simpl. rewrite Gd.
+    set (b := firstn (Z.to_nat (n - rem)) (flatT st (live iv)) ++ skipn (Z.to_nat (n - rem)) (pattern (zlen st) n)).
+    assert (Lb : zlen b = n).
+    { unfold b. rewrite zlen_app, zlen_firstn, zlen_skipn; rewrite ?pattern_length; lia. }
+    rewrite <- Lb at 1. apply sub_whole.
   - (* xfv *)
     destruct A as [A AN].
     destruct (own && (n =? 0)) eqn:C.
     + apply andb_true_iff in C. destruct C as [-> C]. apply Z.eqb_eq in C. subst n.
-      eexists _, _; split; [reflexivity|]. simpl. rewrite flatT_nulls. split; [exact W|]. right. repeat split; auto. lia.
+      eexists _, _; split; [reflexivity|]. simpl. rewrite flatT_nulls. split; [auto|]. right. repeat split; auto. lia.
     + destruct (if own then own_out_slots (mkM st own iv aux chunk) st iv N else (st, iv, Some N)) as [[st1 iv1] slots] eqn:OS.
       assert (X : exists x, st1 = st ++ x /\ live iv1 = live iv).
       { destruct own; [eapply own_out_slots_spec; eauto | inversion OS; subst; exists []; rewrite app_nil_r; auto]. }
@@ -101,20 +244,62 @@ Proof.
       pose proof (wf_view_app st x _ W) as W1. pose proof (flatT_app_store st x _ W) as F1.
       destruct slots as [N'|].
       * pose proof (xf_view_refines (st ++ x) (live iv) n N' W1 A) as G.
+        pose proof (do_xf_ids (cb_view_front N') (live iv) n []) as I.
         destruct (do_extract_front (cb_view_front N') (live iv) n []) as [|v' a'|v' rem a']; [contradiction| |].
         -- destruct G as (P & W' & Wa & L). eexists _, _; split; [reflexivity|]. simpl. rewrite ?live_wfront.
-           split; [exact W'|]. left. rewrite P, F1. auto.
+           split; [auto|]. left. rewrite P, F1. auto.
         -- destruct G as (K & Fa & Fv & W' & Wa & L). eexists _, _; split; [reflexivity|]. simpl. rewrite ?live_wfront.
-           split; [exact W'|]. right. rewrite Fa, Fv, F1, <- SUM. auto.
-      * eexists _, _; split; [reflexivity|]. simpl. rewrite Lv. split; [exact W1|]. left. rewrite F1. auto.
+           split; [auto|]. right. rewrite Fa, Fv, F1, <- SUM. auto.
+      * eexists _, _; split; [reflexivity|]. simpl. rewrite Lv. split; [auto|]. left. rewrite F1. auto.
+  - (* xfc *)
+    destruct (v_xfc (live iv) n) as [v' p] eqn:E.
+    pose proof (v_xfc_refines st _ _ _ _ W A E) as G. destruct p as [[pid poff]|].
+    + destruct G as (Ln & Wp & Bp & Fv & W' & L & [pre P]).
+      eexists _, _; split; [reflexivity|]. simpl. rewrite ?live_wfront.
+      split; [split; [exact W'|eapply ids_ok_suffix; eauto]|]. right.
+      rewrite flatT_single, Bp, <- SUM. repeat split; auto. discriminate.
+    + subst v'. destruct own; [|eexists _, _; split; [reflexivity|]; simpl; split; [auto|]; left; auto].
+      destruct (v_sum (live iv) <? n) eqn:C; [eexists _, _; split; [reflexivity|]; simpl; split; [auto|]; left; auto|].
+      apply Z.ltb_ge in C. unfold do_malloc. destruct (do_allocate chunk st iv n n) as [[st1 iv1] res] eqn:DA.
+      destruct (do_allocate_spec _ _ _ _ _ _ _ _ DA) as (C1 & C2 & C3 & R).
+      destruct res as [[d r]|].
+      * destruct R as (-> & -> & Hr). assert (r = n) by lia. subst r.
+        destruct (xf_copy_refines st (live iv) n W A) as (v' & rem & st2 & pos & EX & K & F & W' & Gd & L & Ag).
+        pose proof (do_xf_ids (cb_copy_front (zlen st)) (live iv) n (st ++ [pattern (zlen st) n], 0)) as I. rewrite EX in I.
+        match goal with |- context [do_extract_front ?c ?v ?k ?a] =>
+          replace (do_extract_front c v k a) with (XDone v' rem (st2, pos)) by (symmetry; exact EX) end.
+        eexists _, _; split; [reflexivity|]. simpl. split; [auto|]. right.
+        assert (RM : n - rem = n) by lia. rewrite RM in *.
+        split; [reflexivity|]. split; [discriminate|]. split; [lia|]. split; [|exact F].
+        rewrite flatT_single. unfold bytesT; simpl. rewrite Gd.
+        rewrite (skipn_whole n (pattern (zlen st) n)) by (rewrite pattern_length; lia). rewrite app_nil_r.
+        set (b := firstn (Z.to_nat n) (flatT st (live iv))).
+        assert (Lb : zlen b = n) by (unfold b; rewrite zlen_firstn; lia).
+        rewrite <- Lb at 1. apply sub_whole.
+      * subst st1. eexists _, _; split; [reflexivity|]. simpl. rewrite C3. split; [auto|]. left; auto.
   - (* xb *)
-    destruct (xb_discard_refines st (live iv) n W A) as (v' & rem & E & K & F & W' & L). rewrite E.
+    destruct (xb_discard_refines st (live iv) n W A) as (v' & rem & E & K & F & W' & L).
+    pose proof (do_xb_ids cb_discard (live iv) n tt) as I. rewrite E in *.
     eexists _, _; split; [reflexivity|]. simpl. rewrite ?live_wback, <- SUM. auto.
+  - (* xbb *)
+    unfold new_buf; cbv beta iota. destruct (xb_copy_refines st (live iv) n W A) as (v' & rem & st2 & pos & E & K & F & W' & Gd & L & Ag).
+    pose proof (do_xb_ids (cb_copy_back (zlen st)) (live iv) n (st ++ [pattern (zlen st) n], n)) as I. rewrite E in I.
+    match goal with |- context [do_extract_back ?c ?v ?k ?a] =>
+      replace (do_extract_back c v k a) with (XDone v' rem (st2, pos)) by (symmetry; exact E) end.
+    eexists _, _; split; [reflexivity|]. simpl. rewrite ?live_wback, <- SUM.
+    split; [auto|]. split; [auto|]. split; [exact F|].
+    exists (pattern (zlen st) n). split; [apply pattern_length; exact A|].
+    rewrite flatT_single. unfold bytesT; simpl. rewrite Gd.
+    replace (n - (n - rem)) with rem by lia.
+    set (b := firstn (Z.to_nat rem) (pattern (zlen st) n) ++ skipn (Z.to_nat (v_sum (live iv) - (n - rem))) (flatT st (live iv))).
+    assert (Lb : zlen b = n).
+    { unfold b. rewrite zlen_app, zlen_firstn, zlen_skipn; rewrite ?pattern_length; lia. }
+    rewrite <- Lb at 1. apply sub_whole.
   - (* xbv *)
     destruct A as [A AN].
     destruct (own && (n =? 0)) eqn:C.
     + apply andb_true_iff in C. destruct C as [-> C]. apply Z.eqb_eq in C. subst n.
-      eexists _, _; split; [reflexivity|]. simpl. rewrite flatT_nulls. split; [exact W|]. right.
+      eexists _, _; split; [reflexivity|]. simpl. rewrite flatT_nulls. split; [auto|]. right.
       replace (Z.min 0 (zlen (flatT st (live iv)))) with 0 by lia. rewrite Z.sub_0_r.
       rewrite skipn_whole, firstn_whole by lia. auto.
     + destruct (if own then own_out_slots (mkM st own iv aux chunk) st iv N else (st, iv, Some N)) as [[st1 iv1] slots] eqn:OS.
@@ -124,76 +309,232 @@ Proof.
       pose proof (wf_view_app st x _ W) as W1. pose proof (flatT_app_store st x _ W) as F1.
       destruct slots as [N'|].
       * pose proof (xb_view_refines (st ++ x) (live iv) n N' W1 A) as G.
+        pose proof (do_xb_ids (cb_view_back N') (live iv) n []) as I.
         destruct (do_extract_back (cb_view_back N') (live iv) n []) as [|v' a'|v' rem a']; [contradiction| |].
         -- destruct G as (P & W' & Wa & L). eexists _, _; split; [reflexivity|]. simpl. rewrite ?live_wback.
-           split; [exact W'|]. left. rewrite P, F1. auto.
+           split; [auto|]. left. rewrite P, F1. auto.
         -- destruct G as (K & Fa & Fv & W' & Wa & L). eexists _, _; split; [reflexivity|]. simpl. rewrite ?live_wback.
-           split; [exact W'|]. right. rewrite Fa, Fv, F1, <- SUM. auto.
-      * eexists _, _; split; [reflexivity|]. simpl. rewrite Lv. split; [exact W1|]. left. rewrite F1, app_nil_r. auto.
+           split; [auto|]. right. rewrite Fa, Fv, F1, <- SUM. auto.
+      * eexists _, _; split; [reflexivity|]. simpl. rewrite Lv. split; [auto|]. left. rewrite F1, app_nil_r. auto.
+  - (* xbc *)
+    destruct (v_xbc (live iv) n) as [v' p] eqn:E.
+    pose proof (v_xbc_refines st _ _ _ _ W A E) as G. destruct p as [[pid poff]|].
+    + destruct G as (Ln & Wp & Bp & Fv & W' & L & [post P]).
+      eexists _, _; split; [reflexivity|]. simpl. rewrite ?live_wback.
+      split; [split; [exact W'|eapply ids_ok_prefix; eauto]|]. right.
+      rewrite flatT_single, Bp, <- SUM. repeat split; auto. discriminate.
+    + subst v'. destruct own; [|eexists _, _; split; [reflexivity|]; simpl; split; [auto|]; left; auto].
+      destruct (v_sum (live iv) <? n) eqn:C; [eexists _, _; split; [reflexivity|]; simpl; split; [auto|]; left; auto|].
+      apply Z.ltb_ge in C. unfold do_malloc. destruct (do_allocate chunk st iv n n) as [[st1 iv1] res] eqn:DA.
+      destruct (do_allocate_spec _ _ _ _ _ _ _ _ DA) as (C1 & C2 & C3 & R).
+      destruct res as [[d r]|].
+      * destruct R as (-> & -> & Hr). assert (r = n) by lia. subst r.
+        destruct (xb_copy_refines st (live iv) n W A) as (v' & rem & st2 & pos & EX & K & F & W' & Gd & L & Ag).
+        pose proof (do_xb_ids (cb_copy_back (zlen st)) (live iv) n (st ++ [pattern (zlen st) n], n)) as I. rewrite EX in I.
+        match goal with |- context [do_extract_back ?c ?v ?k ?a] =>
+          replace (do_extract_back c v k a) with (XDone v' rem (st2, pos)) by (symmetry; exact EX) end.
+        eexists _, _; split; [reflexivity|]. simpl. split; [auto|]. right.
+        assert (RM : rem = 0) by lia. rewrite RM in *. rewrite Z.sub_0_r in *.
+        split; [reflexivity|]. split; [discriminate|]. split; [lia|]. rewrite <- SUM. split; [|exact F].
+        rewrite flatT_single. unfold bytesT; simpl. rewrite Gd. simpl app.
+        set (b := skipn (Z.to_nat (v_sum (live iv) - n)) (flatT st (live iv))).
+        assert (Lb : zlen b = n) by (unfold b; rewrite zlen_skipn; lia).
+        rewrite <- Lb at 1. apply sub_whole.
+      * subst st1. eexists _, _; split; [reflexivity|]. simpl. rewrite C3. split; [auto|]. left; auto.
+  - (* slice *)
+    destruct A as (Ac & Ao & AN).
+    destruct (own && (count =? 0)) eqn:C.
+    + eexists _, _; split; [reflexivity|]. simpl. split; [auto|]. split; [reflexivity|]. right; left; reflexivity.
+    + destruct (if own then own_out_slots (mkM st own iv aux chunk) st iv N else (st, iv, Some N)) as [[st1 iv1] slots] eqn:OS.
+      assert (X : exists x, st1 = st ++ x /\ live iv1 = live iv).
+      { destruct own; [eapply own_out_slots_spec; eauto | inversion OS; subst; exists []; rewrite app_nil_r; auto]. }
+      destruct X as (x & -> & Lv).
+      pose proof (wf_view_app st x _ W) as W1. pose proof (flatT_app_store st x _ W) as F1.
+      destruct slots as [N'|].
+      * pose proof (v_slice_refines (st ++ x) (live iv) count offset N' W1 Ac Ao) as G. cbv zeta in G.
+        destruct (v_slice (live iv) count offset N') as [r [a|]].
+        -- destruct G as (_ & Wa & Ra & Fa & _). eexists _, _; split; [reflexivity|]. simpl. rewrite Lv.
+           split; [auto|]. split; [exact F1|]. right; right. rewrite <- F1. auto.
+        -- destruct G as [_ ->]. eexists _, _; split; [reflexivity|]. simpl. rewrite Lv. split; [auto|]. split; [exact F1|]. left; reflexivity.
+      * eexists _, _; split; [reflexivity|]. simpl. rewrite Lv. split; [auto|]. split; [exact F1|]. right; left; reflexivity.
+  - (* mto *)
+    unfold new_buf; cbv beta iota. set (d := zlen st). set (st1 := st ++ [pattern d n]).
+    assert (Wd : wf_view st1 [mkiov d 0 n]) by (constructor; [apply wf_new_elem; exact A|constructor]).
+    assert (W1 : wf_view st1 (live iv)) by (apply wf_view_app; exact W).
+    assert (F1 : flatT st1 (live iv) = flatT st (live iv)) by (apply flatT_app_store; exact W).
+    assert (FD : ids_from d [mkiov d 0 n]) by (constructor; [simpl; lia|constructor]).
+    destruct (v_memcpy_iov_refines st1 [mkiov d 0 n] (live iv) n Wd W1 ltac:(repeat constructor) (all_disj_hi_lo d _ _ BEL FD) A)
+      as (st2 & k & E & K & FDst & FR & WF & ZL).
+    rewrite E. eexists _, _; split; [reflexivity|]. simpl.
+    assert (FV : flatT st2 (live iv) = flatT st (live iv)).
+    { rewrite (frame_view st1 st2 [mkiov d 0 n] (live iv) FR W1 (all_disj_lo_hi d _ _ BEL FD)). exact F1. }
+    split; [split; [eapply Forall_impl; [|exact W1]; auto|exact IDS]|]. split; [exact FV|].
+    exists (flatT st1 [mkiov d 0 n]). rewrite FDst, F1.
+    split; [|reflexivity]. rewrite K. rewrite <- (zlen_flatT st1 _ Wd), <- (zlen_flatT st1 _ W1), F1. reflexivity.
+  - (* mfrom *)
+    unfold new_buf; cbv beta iota. set (d := zlen st). set (st1 := st ++ [pattern d n]).
+    assert (Wd : wf_view st1 [mkiov d 0 n]) by (constructor; [apply wf_new_elem; exact A|constructor]).
+    assert (W1 : wf_view st1 (live iv)) by (apply wf_view_app; exact W).
+    assert (F1 : flatT st1 (live iv) = flatT st (live iv)) by (apply flatT_app_store; exact W).
+    assert (FD : ids_from d [mkiov d 0 n]) by (constructor; [simpl; lia|constructor]).
+    destruct (v_memcpy_iov_refines st1 (live iv) [mkiov d 0 n] n W1 Wd (ids_ok_pairwise st1 _ W1 IDS) (all_disj_lo_hi d _ _ BEL FD) A)
+      as (st2 & k & E & K & FDst & FR & WF & ZL).
+    rewrite E. eexists _, _; split; [reflexivity|]. simpl.
+    assert (FS : flatT st2 [mkiov d 0 n] = flatT st1 [mkiov d 0 n]).
+    { apply (frame_view st1 st2 (live iv) [mkiov d 0 n] FR Wd (all_disj_hi_lo d _ _ BEL FD)). }
+    split; [split; [eapply Forall_impl; [|exact W1]; auto|exact IDS]|].
+    rewrite FS, FDst, F1. split; [|reflexivity].
+    rewrite K. rewrite <- (zlen_flatT st1 _ Wd), <- (zlen_flatT st1 _ W1), F1. reflexivity.
+  - (* mtov *)
+    destruct A as [Ash A]. destruct (new_bufs st shape) as [st1 dv] eqn:NB.
+    destruct (new_bufs_spec _ _ _ _ Ash NB) as (x & -> & Wd & FD & Od). set (st1 := st ++ x) in *.
+    assert (W1 : wf_view st1 (live iv)) by (apply wf_view_app; exact W).
+    assert (F1 : flatT st1 (live iv) = flatT st (live iv)) by (apply flatT_app_store; exact W).
+    destruct (v_memcpy_iov_refines st1 dv (live iv) n Wd W1 (ids_ok_pairwise st1 _ Wd Od) (all_disj_hi_lo _ _ _ BEL FD) A)
+      as (st2 & k & E & K & FDst & FR & WF & ZL).
+    rewrite E. eexists _, _; split; [reflexivity|]. simpl.
+    assert (FV : flatT st2 (live iv) = flatT st (live iv)).
+    { rewrite (frame_view st1 st2 dv (live iv) FR W1 (all_disj_lo_hi _ _ _ BEL FD)). exact F1. }
+    split; [split; [eapply Forall_impl; [|exact W1]; auto|exact IDS]|]. split; [exact FV|].
+    exists (flatT st1 dv). rewrite FDst, F1.
+    split; [|reflexivity]. rewrite K. rewrite <- (zlen_flatT st1 _ Wd), <- (zlen_flatT st1 _ W1), F1. reflexivity.
+  - (* mfromv *)
+    destruct A as [Ash A]. destruct (new_bufs st shape) as [st1 dv] eqn:NB.
+    destruct (new_bufs_spec _ _ _ _ Ash NB) as (x & -> & Wd & FD & Od). set (st1 := st ++ x) in *.
+    assert (W1 : wf_view st1 (live iv)) by (apply wf_view_app; exact W).
+    assert (F1 : flatT st1 (live iv) = flatT st (live iv)) by (apply flatT_app_store; exact W).
+    destruct (v_memcpy_iov_refines st1 (live iv) dv n W1 Wd (ids_ok_pairwise st1 _ W1 IDS) (all_disj_lo_hi _ _ _ BEL FD) A)
+      as (st2 & k & E & K & FDst & FR & WF & ZL).
+    rewrite E. eexists _, _; split; [reflexivity|]. simpl.
+    assert (FS : flatT st2 dv = flatT st1 dv).
+    { apply (frame_view st1 st2 (live iv) dv FR Wd (all_disj_hi_lo _ _ _ BEL FD)). }
+    split; [split; [eapply Forall_impl; [|exact W1]; auto|exact IDS]|].
+    rewrite FS, FDst, F1. split; [|reflexivity].
+    rewrite K. rewrite <- (zlen_flatT st1 _ Wd), <- (zlen_flatT st1 _ W1), F1. reflexivity.
+  - (* pto *)
+    unfold new_buf; cbv beta iota. set (d := zlen st). set (st1 := st ++ [pattern d n]).
+    assert (Wd : wf_view st1 [mkiov d 0 n]) by (constructor; [apply wf_new_elem; exact A|constructor]).
+    assert (W1 : wf_view st1 (live iv)) by (apply wf_view_app; exact W).
+    assert (F1 : flatT st1 (live iv) = flatT st (live iv)) by (apply flatT_app_store; exact W).
+    assert (FD : ids_from d [mkiov d 0 n]) by (constructor; [simpl; lia|constructor]).
+    destruct (v_pipe_iov_refines st1 [mkiov d 0 n] (live iv) n Wd W1 ltac:(repeat constructor) (all_disj_hi_lo d _ _ BEL FD) A)
+      as (st2 & v' & k & E & K & FDst & FR & WF & ZL & FS' & WS' & _).
+    pose proof (v_pipe_iov_ids _ _ _ _ _ _ _ E IDS) as I'.
+    rewrite E. eexists _, _; split; [reflexivity|]. simpl. rewrite ?live_wfront.
+    split; [auto|].
+    exists (flatT st1 [mkiov d 0 n]). rewrite FDst, FS', F1.
+    split; [|split; reflexivity]. rewrite K. rewrite <- (zlen_flatT st1 _ Wd), <- (zlen_flatT st1 _ W1), F1. reflexivity.
+  - (* ptov *)
+    destruct A as [Ash A]. destruct (new_bufs st shape) as [st1 dv] eqn:NB.
+    destruct (new_bufs_spec _ _ _ _ Ash NB) as (x & -> & Wd & FD & Od). set (st1 := st ++ x) in *.
+    assert (W1 : wf_view st1 (live iv)) by (apply wf_view_app; exact W).
+    assert (F1 : flatT st1 (live iv) = flatT st (live iv)) by (apply flatT_app_store; exact W).
+    destruct (v_pipe_iov_refines st1 dv (live iv) n Wd W1 (ids_ok_pairwise st1 _ Wd Od) (all_disj_hi_lo _ _ _ BEL FD) A)
+      as (st2 & v' & k & E & K & FDst & FR & WF & ZL & FS' & WS' & _).
+    pose proof (v_pipe_iov_ids _ _ _ _ _ _ _ E IDS) as I'.
+    rewrite E. eexists _, _; split; [reflexivity|]. simpl. rewrite ?live_wfront.
+    split; [auto|].
+    exists (flatT st1 dv). rewrite FDst, FS', F1.
+    split; [|split; reflexivity]. rewrite K. rewrite <- (zlen_flatT st1 _ Wd), <- (zlen_flatT st1 _ W1), F1. reflexivity.
+  - (* pfromv *)
+    destruct A as [Ash A]. destruct (new_bufs st shape) as [st1 dv] eqn:NB.
+    destruct (new_bufs_spec _ _ _ _ Ash NB) as (x & -> & Wd & FD & Od). set (st1 := st ++ x) in *.
+    assert (W1 : wf_view st1 (live iv)) by (apply wf_view_app; exact W).
+    assert (F1 : flatT st1 (live iv) = flatT st (live iv)) by (apply flatT_app_store; exact W).
+    destruct (v_pipe_iov_refines st1 (live iv) dv n W1 Wd (ids_ok_pairwise st1 _ W1 IDS) (all_disj_lo_hi _ _ _ BEL FD) A)
+      as (st2 & v' & k & E & K & FDst & FR & WF & ZL & FS' & WS' & _).
+    rewrite E. eexists _, _; split; [reflexivity|]. simpl.
+    assert (FS : flatT st2 dv = flatT st1 dv).
+    { apply (frame_view st1 st2 (live iv) dv FR Wd (all_disj_hi_lo _ _ _ BEL FD)). }
+    split; [split; [eapply Forall_impl; [|exact W1]; auto|exact IDS]|].
+    rewrite FS, FDst, FS', F1. split; [|split; reflexivity].
+    rewrite K. rewrite <- (zlen_flatT st1 _ Wd), <- (zlen_flatT st1 _ W1), F1. reflexivity.
   - (* pushb *)
     destruct own; [|eexists _, _; split; [reflexivity|]; simpl; auto].
     unfold new_buf, o_push_back. pose proof (wf_view_app st [pattern (zlen st) size] _ W) as W1.
     pose proof (flatT_app_store st [pattern (zlen st) size] _ W) as F1.
     destruct (iend iv <? cap iv).
-    + eexists _, _; split; [reflexivity|]. simpl. split.
+    + eexists _, _; split; [reflexivity|]. simpl. split; [split|].
       * apply Forall_app; split; [exact W1 | constructor; [apply wf_new_elem; exact A | constructor]].
+      * unfold ids_ok in *. rewrite map_app. simpl.
+        apply NoDup_rev in IDS. rewrite <- (rev_involutive (map iv_id (live iv) ++ [zlen st])). apply NoDup_rev.
+        rewrite rev_app_distr. simpl. constructor; [|exact IDS]. rewrite <- in_rev. intros HI. apply in_map_iff in HI.
+        destruct HI as (y & Ey & Hy). eapply Forall_forall in BEL; [|exact Hy]. simpl in BEL. lia.
       * right. split; [reflexivity|]. eexists; split; [|rewrite flatT_app, F1; reflexivity].
         rewrite flatT_single. apply (zlen_bytesT _ _ (wf_new_elem st size A)).
-    + eexists _, _; split; [reflexivity|]. simpl. split; [exact W1|]. left; auto.
+    + eexists _, _; split; [reflexivity|]. simpl. split; [auto|]. left; auto.
   - (* pushf *)
     destruct own; [|eexists _, _; split; [reflexivity|]; simpl; auto].
     unfold new_buf, o_push_front. pose proof (wf_view_app st [pattern (zlen st) size] _ W) as W1.
     pose proof (flatT_app_store st [pattern (zlen st) size] _ W) as F1.
     destruct (0 <? ibeg iv).
-    + eexists _, _; split; [reflexivity|]. simpl. split.
+    + eexists _, _; split; [reflexivity|]. simpl. split; [split|].
       * constructor; [apply wf_new_elem; exact A | exact W1].
+      * unfold ids_ok in *. simpl. constructor; [|exact IDS]. intros HI. apply in_map_iff in HI.
+        destruct HI as (y & Ey & Hy). eapply Forall_forall in BEL; [|exact Hy]. simpl in BEL. lia.
       * right. split; [reflexivity|]. eexists; split; [|rewrite flatT_cons, F1; reflexivity].
         apply (zlen_bytesT _ _ (wf_new_elem st size A)).
-    + eexists _, _; split; [reflexivity|]. simpl. split; [exact W1|]. left; auto.
+    + eexists _, _; split; [reflexivity|]. simpl. split; [auto|]. left; auto.
+  - (* pushba *)
+    destruct own; [|eexists _, _; split; [reflexivity|]; simpl; auto].
+    destruct (o_push_back_alloc_spec chunk st iv bytes W IDS A) as (st' & iv' & k & EA & Hk & (W2 & I2 & XX & LX & FX)).
+    rewrite EA. eexists _, _; split; [reflexivity|]. simpl. split; [auto|]. split; [lia|]. exists XX. auto.
+  - (* pushfa *)
+    destruct own; [|eexists _, _; split; [reflexivity|]; simpl; auto].
+    destruct (o_push_front_alloc_spec chunk st iv bytes W IDS A) as (st' & iv' & k & EA & Hk & (W2 & I2 & XX & LX & FX)).
+    rewrite EA. eexists _, _; split; [reflexivity|]. simpl. split; [auto|]. split; [lia|]. exists XX. auto.
   - (* popf *)
     destruct own; [|eexists _, _; split; [reflexivity|]; simpl; auto].
     unfold o_pop_front. destruct (live iv) as [|e r] eqn:Lv.
-    + eexists _, _; split; [reflexivity|]. simpl. rewrite Lv. split; [constructor|]. simpl. split; [unfold zlen; simpl; lia|reflexivity].
-    + apply wf_view_cons in W. destruct W as [We Wr]. eexists _, _; split; [reflexivity|]. simpl. split; [exact Wr|].
+    + eexists _, _; split; [reflexivity|]. simpl. rewrite Lv. split; [split; constructor|]. simpl. split; [unfold zlen; simpl; lia|reflexivity].
+    + apply wf_view_cons in W. destruct W as [We Wr]. eexists _, _; split; [reflexivity|]. simpl.
+      split; [split; [exact Wr|unfold ids_ok in *; simpl in IDS; inversion IDS; auto]|].
       rewrite flatT_cons, zlen_app, (zlen_bytesT _ _ We). pose proof (wf_len_nonneg _ _ We). pose proof (zlen_nonneg (flatT st r)).
       split; [lia|]. rewrite skipn_app_Z2 by (rewrite (zlen_bytesT _ _ We); lia). rewrite (zlen_bytesT _ _ We), Z.sub_diag. reflexivity.
   - (* popb *)
     destruct own; [|eexists _, _; split; [reflexivity|]; simpl; auto].
     unfold o_pop_back. destruct (rev (live iv)) as [|e r] eqn:Lv.
-    + eexists _, _; split; [reflexivity|]. simpl. split; [exact W|]. split; [lia|]. rewrite Z.sub_0_r, firstn_whole by lia. reflexivity.
+    + eexists _, _; split; [reflexivity|]. simpl. split; [auto|]. split; [lia|]. rewrite Z.sub_0_r, firstn_whole by lia. reflexivity.
     + assert (LL : live iv = rev r ++ [e]) by (rewrite <- (rev_involutive (live iv)), Lv; reflexivity).
-      rewrite LL in W. apply Forall_app in W. destruct W as [Wr We]. inversion We as [|? ? We1 _]; subst.
-      eexists _, _; split; [reflexivity|]. simpl. split; [exact Wr|].
+      rewrite LL in W, IDS. apply Forall_app in W. destruct W as [Wr We]. inversion We as [|? ? We1 _]; subst.
+      eexists _, _; split; [reflexivity|]. simpl.
+      split; [split; [exact Wr|eapply ids_ok_prefix; [exact IDS|rewrite map_app; reflexivity]]|].
       rewrite LL, flatT_app, flatT_single, zlen_app, (zlen_bytesT _ _ We1).
       pose proof (wf_len_nonneg _ _ We1). pose proof (zlen_nonneg (flatT st (rev r))).
       split; [lia|]. replace (zlen (flatT st (rev r)) + iv_len e - iv_len e) with (zlen (flatT st (rev r))) by lia.
       rewrite firstn_app_Z by lia. rewrite firstn_whole by lia. reflexivity.
   - (* clear *)
-    destruct own; eexists _, _; (split; [reflexivity|]); simpl; auto. split; [constructor|reflexivity].
+    destruct own; eexists _, _; (split; [reflexivity|]); simpl; auto. split; [split; constructor|reflexivity].
 Qed.
 
-(* sequences *)
+(* ---------------------------------------------------------------- sequences *)
 Inductive refines : machine -> list op -> list obs -> machine -> Prop :=
 | R_nil m : refines m [] [] m
 | R_cons m o ob m1 ops obs m2 :
-    step m o = Some (m1, ob) -> wf_machine m1 ->
-    flat_spec o (m_own m) (mflat m) (mflat m1) (auxflat m1) ob ->
+    step m o = Some (m1, ob) -> wf_machine m1 -> m_own m1 = m_own m ->
+    flat_spec o (m_own m) (mflat m) (mflat m1) (auxflat m1) (dstflat m1 ob) ob ->
     refines m1 ops obs m2 -> refines m (o :: ops) (ob :: obs) m2.
 
-(* FULL statement (all operations): kept as a Prop until the copy/pipe/slice/continuous lemmas are assembled *)
-Definition ops_refine_flat_statement : Prop :=
-  forall ops m, wf_machine m -> Forall args_ok ops ->
-    exists m' obs, run m ops = Some (m', obs) /\ wf_machine m' /\ refines m ops obs m'.
+Lemma step_own m o m1 ob : step m o = Some (m1, ob) -> m_own m1 = m_own m.
+Proof.
+  destruct m as [st own iv aux chunk]. unfold step; cbn [m_st m_own m_iv m_aux m_chunk].
+  destruct o; intros E;
+    repeat match type of E with
+           | context [match ?x with _ => _ end] => destruct x; try discriminate
+           | context [if ?x then _ else _] => destruct x; try discriminate
+           end; unfold ret_only in E; inversion E; reflexivity.
+Qed.
 
-Theorem ops_refine_flat_partial : forall ops m, wf_machine m -> Forall supported ops -> Forall args_ok ops ->
+Theorem ops_refine_flat : forall ops m, wf_machine m -> Forall args_ok ops ->
   exists m' obs, run m ops = Some (m', obs) /\ wf_machine m' /\ refines m ops obs m'.
 Proof.
-  induction ops as [|o ops IH]; intros m W S A.
-  - exists m, []. repeat split; auto. constructor.
-  - inversion S as [|? ? So Sr]; inversion A as [|? ? Ao Ar]; subst.
-    destruct (step_refines m o W So Ao) as (m1 & ob & E & W1 & FS).
-    destruct (IH m1 W1 Sr Ar) as (m2 & obs & R & W2 & RF).
-    exists m2, (ob :: obs). simpl. rewrite E, R. repeat split; auto. econstructor; eauto.
+  induction ops as [|o ops IH]; intros m W A.
+  - exists m, []. repeat split; auto; try apply W. constructor.
+  - inversion A as [|? ? Ao Ar]; subst.
+    destruct (step_refines m o W Ao) as (m1 & ob & E & W1 & FS).
+    pose proof (step_own _ _ _ _ E) as OW.
+    destruct (IH m1 W1 Ar) as (m2 & obs & R & W2 & RF).
+    exists m2, (ob :: obs). simpl. rewrite E, R. repeat split; auto; try apply W2. econstructor; eauto.
 Qed.
 
 (* ---------------------------------------------------------------- F2: the unfixed iov_iterator constructor *)
@@ -212,12 +553,13 @@ Proof. repeat split; vm_compute; discriminate. Qed.
 Example wf_machine_example : wf_machine (init_machine true 8 2 64 [2; 0; 3]) /\ wf_machine (init_machine false 0 0 1 [2; 0; 3]).
 Proof.
   split.
-  - set (m := init_machine true 8 2 64 [2; 0; 3]). vm_compute in m. subst m. unfold wf_machine; simpl m_st; simpl live.
-    repeat constructor; (eexists; split; [reflexivity|]; unfold zlen; simpl; lia).
-  - set (m := init_machine false 0 0 1 [2; 0; 3]). vm_compute in m. subst m. unfold wf_machine; simpl m_st; simpl live.
-    repeat constructor; (eexists; split; [reflexivity|]; unfold zlen; simpl; lia).
+  - set (m := init_machine true 8 2 64 [2; 0; 3]). vm_compute in m. subst m. unfold wf_machine; simpl m_st; simpl live. split.
+    + repeat constructor; (eexists; split; [reflexivity|]; unfold zlen; simpl; lia).
+    + unfold ids_ok; simpl. repeat constructor; simpl; intuition discriminate.
+  - set (m := init_machine false 0 0 1 [2; 0; 3]). vm_compute in m. subst m. unfold wf_machine; simpl m_st; simpl live. split.
+    + repeat constructor; (eexists; split; [reflexivity|]; unfold zlen; simpl; lia).
+    + unfold ids_ok; simpl. repeat constructor; simpl; intuition discriminate.
 Qed.
 Example ops_example :
-  Forall supported [OXF 1; OXFV 3 4; OPushB 2; OXBV 2 0; OShrink 1; OPopF; OSum] /\
-  Forall args_ok [OXF 1; OXFV 3 4; OPushB 2; OXBV 2 0; OShrink 1; OPopF; OSum].
-Proof. split; repeat constructor; simpl; lia. Qed.
+  Forall args_ok [OTrunc 9; OXFC 4; OPushFA 3; OXF 1; OXFV 3 4; OPushB 2; OXBV 2 0; OMFromV [1; 0; 2] 3; OSlice 2 1 0; OPToV [2; 2] 9; OShrink 1; OPopF; OSum].
+Proof. repeat constructor; simpl; lia. Qed.
